@@ -104,6 +104,18 @@ func c14Frames() *poolFrames {
 	altr.Topic, altr.Payload = []byte("third"), []byte("R1234")
 	altr.Props = []spec.Prop{{ID: 0x09, B: []byte("c-5")}}
 	add(mustEncode(altr, spec.Form{}))
+	// second frames for SUBSCRIBE and CONNACK with other values in the same
+	// fields (a packet reused as decode destination must end up with the new
+	// values, not a blend)
+	alts := minimalPacket(8)
+	alts.PacketID = 513
+	alts.Props = []spec.Prop{{ID: 0x0b, N: 200}}
+	alts.Filters = []spec.Filter{{Topic: []byte("other/+"), Opts: 2}}
+	add(mustEncode(alts, spec.Form{}))
+	altc := minimalPacket(2)
+	altc.Reason = 0x10
+	altc.Props = []spec.Prop{{ID: 0x21, N: 4660}, {ID: 0x11, N: 70000}, {ID: 0x12, B: []byte("other-id")}, {ID: 0x13, N: 77}}
+	add(mustEncode(altc, spec.Form{}))
 	// frames the decoder accepts although they carry a property foreign to
 	// the packet (here: a subscription identifier), a state-carrying decoder
 	// may route it to a packet decoded earlier
@@ -175,7 +187,7 @@ func c14Alphabet(pf *poolFrames) []poolOp {
 		}
 	}
 	for f := range pf.frames {
-		if pf.types[f] == 1 || pf.types[f] == 3 || pf.types[f] == 9 {
+		if pf.types[f] == 1 || pf.types[f] == 3 || pf.types[f] == 9 || pf.types[f] == 8 || pf.types[f] == 2 {
 			for slot := 0; slot < 2; slot++ {
 				ops = append(ops, poolOp{Name: fmt.Sprintf("unmarshalInto(#%d,frame%d:%s)", slot, f, bind.TypeNames[pf.types[f]]), Kind: 'i', Frame: f, Slot: slot})
 			}
@@ -271,6 +283,11 @@ func c14Run(pf *poolFrames, ops []poolOp, seq []int, globals0 digest.Sum) (f *co
 			}
 			target = o.Slot
 			snap[o.Slot] = c14Obs(p)
+			if last {
+				if why := c14CarriesFrame(p, fr); why != "" {
+					return mk("decode-into-used-packet-blends/"+bind.TypeNames[pf.types[o.Frame]], "the packet does not carry the values of the frame decoded into it: "+why), true
+				}
+			}
 		case 'f':
 			if o.Slot >= len(pool) || len(pool) == 3 {
 				return nil, false
@@ -364,6 +381,67 @@ func c14Run(pf *poolFrames, ops []poolOp, seq []int, globals0 digest.Sum) (f *co
 		return mk("aliasing/"+o.A.Path, fmt.Sprintf("%s share mutable memory: %s and %s", who, o.A.Path, o.B.Path)), true
 	}
 	return nil, true
+}
+
+// c14CarriesFrame: after frame was decoded into p (which may have held
+// other values before), every field the frame carries must read as the
+// frame says; fields the frame does not carry are not judged (a decoder
+// need not reset them).
+func c14CarriesFrame(p mq.Packet, frame []byte) string {
+	want, _, n, err := spec.Decode(frame, false)
+	if err != nil || n != len(frame) {
+		return ""
+	}
+	obs, _ := bind.Observe(p)
+	w, o := spec.Normalise(expectedOf(want)), spec.Normalise(obs)
+	chk := func(name string, a, b any) string {
+		if fmt.Sprint(a) != fmt.Sprint(b) {
+			return fmt.Sprintf("%s: frame %v, packet %v", name, a, b)
+		}
+		return ""
+	}
+	for _, d := range []string{
+		chk("PacketID", w.PacketID, o.PacketID), chk("Reason", w.Reason, o.Reason), chk("Topic", string(w.Topic), string(o.Topic)),
+		chk("Payload", string(w.Payload), string(o.Payload)), chk("ClientID", string(w.ClientID), string(o.ClientID)),
+		chk("KeepAlive", w.KeepAlive, o.KeepAlive), chk("SessionPresent", w.SessionPresent, o.SessionPresent),
+	} {
+		if d != "" {
+			return d
+		}
+	}
+	if w.Type == 8 || w.Type == 10 {
+		// the frame's filters are the last ones of the packet
+		if len(o.Filters) < len(w.Filters) {
+			return fmt.Sprintf("filters: frame %d, packet %d", len(w.Filters), len(o.Filters))
+		}
+		off := len(o.Filters) - len(w.Filters)
+		for i, f := range w.Filters {
+			if string(f.Topic) != string(o.Filters[off+i].Topic) || f.Opts != o.Filters[off+i].Opts {
+				return fmt.Sprintf("filter %d: frame %q/%#02x, packet %q/%#02x", i, f.Topic, f.Opts, o.Filters[off+i].Topic, o.Filters[off+i].Opts)
+			}
+		}
+	}
+	for _, pr := range w.Props {
+		if pr.ID == 0x26 || (pr.ID == 0x0b && w.Type == 3) {
+			continue // repeatable: lists may keep earlier entries
+		}
+		if !spec.PropAllowed(pr.ID, w.Type, false) {
+			continue // foreign to the packet type: no accessor shows it
+		}
+		found := false
+		for _, q := range o.Props {
+			if q.ID == pr.ID {
+				found = true
+				if q.N != pr.N || string(q.B) != string(pr.B) {
+					return fmt.Sprintf("property %#02x: frame %d/%q, packet %d/%q", pr.ID, pr.N, pr.B, q.N, q.B)
+				}
+			}
+		}
+		if !found {
+			return fmt.Sprintf("property %#02x of the frame is missing in the packet", pr.ID)
+		}
+	}
+	return ""
 }
 
 // alignPublishFlags: the layout of a PUBLISH body depends on the QoS bits of
